@@ -1,6 +1,7 @@
 package main
 
 import (
+	"sort"
 	"fmt"
 	"go/token"
 	"go/types"
@@ -485,6 +486,99 @@ func c13(c *Ctx) {
 			}
 		})
 		r.Check("memo:stores-informer-result-under-ip", okSt, ifc.Pos(), "p.cache[ip] = instanceFromInformer(ip)")
+	})
+
+	c.Rule("C13.R6", "the informer's store holds what the lookups read: if a transform is installed on the pod informer, every pod field read by the index function, the eligibility predicate, the invalidation handler and the instance builder is carried over by it", 1, func(r *Rule) {
+		isPodStruct := func(t string) bool {
+			switch t {
+			case "Pod", "PodSpec", "PodStatus", "ObjectMeta":
+				return true
+			}
+			return false
+		}
+		var transforms []*ssa.Function
+		for _, fn := range pkgFuncs(w, P) {
+			for _, cl := range callsIn(fn) {
+				if cl.Common().IsInvoke() && cl.Common().Method.Name() == "SetTransform" || strings.HasSuffix(calleeName(cl), ".SetTransform") {
+					a := cl.Common().Args
+					switch f := a[len(a)-1].(type) {
+					case *ssa.Function:
+						transforms = append(transforms, f)
+					case *ssa.MakeClosure:
+						if g, ok := f.Fn.(*ssa.Function); ok {
+							transforms = append(transforms, g)
+						}
+					case *ssa.ChangeType:
+						if g, ok := f.X.(*ssa.Function); ok {
+							transforms = append(transforms, g)
+						}
+					default:
+						r.Fail("transform:resolvable", cl.Pos(), "a transform is installed but its function cannot be resolved: "+pathOf(a[len(a)-1]))
+					}
+				}
+			}
+		}
+		if len(transforms) == 0 {
+			r.Pass("transform:none", token.NoPos, "no transform is installed on the informer: pods are stored as delivered")
+			return
+		}
+		isT := map[*ssa.Function]bool{}
+		for _, t := range transforms {
+			for _, g := range WithAnon(t) {
+				isT[g] = true
+			}
+		}
+		read := map[string]token.Pos{}
+		for _, fn := range pkgFuncs(w, P) {
+			if isT[fn] {
+				continue
+			}
+			eachInstr(fn, func(in ssa.Instruction) {
+				var st, f string
+				var ok bool
+				switch x := in.(type) {
+				case *ssa.FieldAddr:
+					st, f, _, ok = fieldRef(x)
+					// a field address that is only stored to is a write, not a read
+				case *ssa.Field:
+					st, f, _, ok = fieldRef(x)
+				}
+				if ok && isPodStruct(st) && !isPodStruct(f) && f != "Spec" && f != "Status" {
+					read[st+"."+f] = in.Pos()
+				}
+			})
+		}
+		for _, t := range transforms {
+			c.SawFunc(FuncName(t))
+			written := map[string]bool{}
+			whole := map[string]bool{}
+			for _, g := range WithAnon(t) {
+				eachInstr(g, func(in ssa.Instruction) {
+					st, ok := in.(*ssa.Store)
+					if !ok {
+						return
+					}
+					if s, f, _, okf := fieldRef(st.Addr); okf && isPodStruct(s) {
+						written[s+"."+f] = true
+						// copying a whole embedded struct carries all of its fields
+						if n := structName(st.Val.Type()); isPodStruct(n) {
+							if _, isLoad := st.Val.(*ssa.UnOp); isLoad {
+								whole[n] = true
+							}
+						}
+					}
+				})
+			}
+			var keys []string
+			for k := range read {
+				keys = append(keys, k)
+			}
+			sort.Strings(keys)
+			for _, k := range keys {
+				s := k[:strings.Index(k, ".")]
+				r.Check("transform:"+t.Name()+":keeps:"+k, written[k] || whole[s], read[k], "field "+k+" is read by the lookup code and must survive the informer transform "+t.Name())
+			}
+		}
 	})
 
 	c.Rule("C13.R5", "tags and identity: tag name is the non-empty 'tag' group, else the whole key when the regex matched, else nothing; labels use the label regex, annotations the annotation regex; id = namespace/name", 8, func(r *Rule) {
